@@ -377,7 +377,7 @@ RowsI ==
             auth : {Item("U", "plain"), Item("W", "plain"), Item("V", "plain")},
             mf : Plain({"self", "cself", "ivy", "ivyd", "peer"}),
             from : FromOne(Plain({"self", "cself", "ivy"}), {"angle"}),
-            sender : {NoItem},
+            sender : {NoItem, P("cself")},
             chk : {TRUE}, sasl : {Sasl0}, nb : {"absent"}, act : {"default"}, edit : {"none"}, fam : {"I"} ]
       : r.auth.a = "W" => KeepCase(r.anorm) }
   \cup
